@@ -344,6 +344,12 @@ PROPS = {
         work=[dict(driver="hist", args=["--nops", "60", "--per-file", "6", "--max-snaps", "4",
                                         "--max-iters", "3", "--snap-bias", "1"],
                    quick=48, thorough=1200),
+              # a hot key with many versions kept by snapshots in ONE table (several blocks and
+              # 2 KiB filter ranges): snapshot gets of versions that are not in the first block
+              dict(driver="hist", args=["--nops", "90", "--per-file", "6", "--profile", "hot",
+                                        "--nkeys", "4", "--memtable", "8000", "--block", "64",
+                                        "--file", "40000", "--max-snaps", "6", "--snap-bias", "1"],
+                   quick=24, thorough=600),
               # snapshots and iterators taken while a writer is suspended inside its commit
               dict(driver="sched", args=["--all"], quick=1, thorough=6, trace=CONC_TRACE,
                    final_rc3=True)]),
